@@ -343,8 +343,9 @@ def playback(scratch, h):
     """Re-run one failed harness with concrete playback; returns (values, decoded, text)."""
     cmd = ["cargo", "kani", "-Z", "function-contracts", "-Z", "stubbing", "-Z", "unstable-options",
            "-Z", "concrete-playback", "--concrete-playback=print", "--exact", "--harness", h.full,
-           "--harness-timeout", f"{h.timeout * 2}s"]
-    rc, out, secs, to = run(cmd, cwd=os.path.join(scratch, h.unit.crate), timeout=h.timeout * 2 + 300)
+           "--harness-timeout", f"{min(h.timeout * 2, 900)}s"]
+    # (bounded: when the trace cannot be produced in time the violation is still reported, as no-failing-input-found)
+    rc, out, secs, to = run(cmd, cwd=os.path.join(scratch, h.unit.crate), timeout=min(h.timeout * 2, 900) + 200)
     out = _strip_noise(out)
     tests = []
     for m in re.finditer(r"/// Check for `(\w+)`: \"(.*?)\"\s*\n(?:[^\n]*\n)*?\s*let concrete_vals: Vec<Vec<u8>> = vec!\[(.*?)\n\s*\];", out, re.S):
